@@ -167,6 +167,45 @@ def run(fx, chk, tier):
                     key = "%s#%d" % (key, n)
                 chk.require(bool(ub) and c07.size_derived_in(ub, sroots), "R-CHAIN", key, "child size <= an expression of the enclosing size (%s)" % (sorted(ub) if ub else None),
                             "child size read from a header reaches %s without a dominating `s > size` rejection: the child is not bounded by its parent" % fn_short(p), site_of(fn, t.get("line")))
+    # a child size handed to a private dispatch helper that forwards it to the decoders (`read_top_level(reader, name, s, ..)`)
+    # is a hand-off at the helper's call site: the bound has to hold there
+    for fid in sorted(eng.clo):
+        fn = fx.fns[fid]
+        it = eng.res.interps.get(fid)
+        body = body_of(fn)
+        if body is None or it is None:
+            continue
+        sroots = c07.size_roots_ip(fx, eng, fid)
+        for b, t in body.calls():
+            p = callee_path(t["callee"]) or ""
+            g = fx.fns.get(p)
+            gb = body_of(g) if g else None
+            if gb is None or p.endswith("::skip_box") or short(((g.get("impl") or {}).get("trait") or "")).startswith("ReadBox<"):
+                continue
+            st = it.out_states.get(b)
+            if st is None:
+                continue
+            for i, a in enumerate(t["args"]):
+                sid, lo, hi, prov = it.read_op(st, a, (b, "t"))
+                if not any(r.endswith("BoxHeader::read") for r in prov):
+                    continue
+                # does the helper forward this parameter as the size of a decoder / skip call?
+                forwards = []
+                for b2, t2 in gb.calls():
+                    p2 = callee_path(t2["callee"]) or ""
+                    g2 = fx.fns.get(p2)
+                    tr2 = short(((g2 or {}).get("impl") or {}).get("trait") or "") if g2 else ""
+                    if g2 is not None and (tr2.startswith("ReadBox<") or p2.endswith("::skip_box")) and len(t2["args"]) >= 2:
+                        pl2 = op_place(t2["args"][1])
+                        if pl2 is not None and c07.derives_from(gb, pl2["l"], i + 1):
+                            forwards.append(fn_short(p2))
+                ub = c07.derived_ub(it, st, sid) if sid is not None else None
+                # one hand-off per decoder the helper forwards the size to
+                for k, dec in enumerate(forwards):
+                    nchain += 1
+                    key = "%s|%s(%s)->%s#%d" % (fn_short(fid), fn_short(p), body.op_str(a), dec, k)
+                    chk.require(bool(ub) and c07.size_derived_in(ub, sroots), "R-CHAIN", key, "child size <= an expression of the enclosing size (%s), then forwarded by %s" % (sorted(ub) if ub else None, fn_short(p)),
+                                "child size read from a header is handed to %s, which forwards it to the decoders, without a dominating `s > size` rejection" % fn_short(p), site_of(fn, t.get("line")))
     chk.floor("R-SINK", "sized allocations", nsinks, FLOOR_SINKS)
     chk.floor("R-CHAIN", "child-size hand-offs", nchain, FLOOR_CHAIN)
     chk.analysed.update({"closure_functions": len(eng.clo), "sized_allocations": nsinks, "growth_sites": ngrow, "child_size_handoffs": nchain})
